@@ -2,3 +2,4 @@ import XoGen.TieSlot
 import XoGen.TieStrides
 import XoGen.TieChunk
 import XoGen.TieIndex
+import XoGen.TieOrder
